@@ -44,6 +44,10 @@ type c06Op struct {
 	// N bytes, 2 a directory without index.html, 3 the file exists but the fs.FS hands out files
 	// without Seek (fsFile refuses them); Bad = a name that does not exist
 	Mode int `json:"mode,omitempty"`
+	// round 8: which Response the operation is performed on when the handler's Response is mounted on
+	// top of other Responses (c06Case.Nest): 0 = the handler's own (innermost) one, 1 = the one it
+	// writes to, ... (clamped to Nest)
+	L int `json:"l,omitempty"`
 }
 
 type c06Case struct {
@@ -76,6 +80,18 @@ type c06Case struct {
 	// thorough tier: run the program a second time behind a real net/http server and compare
 	// what the client receives with Response.Status / Response.Size
 	RoundTrip bool `json:"round_trip,omitempty"`
+	// round 8: echo mounted inside echo.  Nest further Echo instances sit between the recording writer
+	// and the Echo whose handler runs the program; each one hands ITS *echo.Response to the next as
+	// the http.ResponseWriter — through echo.WrapHandler(inner) / inner.ServeHTTP(c.Response(), req)
+	// (pooled context, Response.reset) or, with Fresh, inner.NewContext(req, c.Response()) and
+	// Context.Reset for the later requests.  The clauses of the property are judged on the OUTERMOST
+	// Response (the one around the recording writer) and on every other Response that no operation
+	// bypasses (no status / body operation addressed to a Response further out).
+	Nest int `json:"nest,omitempty"`
+	// the levels of the tower are routes of ONE Echo instance ("/", "/l1", "/l2", ...): a handler
+	// that re-dispatches with e.ServeHTTP(c.Response(), requestForTheNextRoute) — contexts of one
+	// pool nested in each other (Fresh: e.NewContext on the same instance)
+	Same bool `json:"same,omitempty"`
 }
 
 // ---- events (codes as in C06.encEv) ----
@@ -91,7 +107,10 @@ const (
 	c06Warn
 )
 
-type c06Ev struct{ code, arg int }
+type c06Ev struct {
+	code, arg int
+	l         int // hook and warn events: tower index of the Response (0 = the one around the writer)
+}
 
 // ---- recording writer: net/http's rule ----
 // The core has only the three methods of http.ResponseWriter; Flush / ReadFrom / Hijack are added
@@ -312,7 +331,7 @@ func (w *c06Writer) WriteHeader(code int) {
 		panic(fmt.Sprintf("invalid WriteHeader code %v", code))
 	}
 	w.calls = append(w.calls, code)
-	*w.trace = append(*w.trace, c06Ev{c06Hdr, c06Enc(code)})
+	*w.trace = append(*w.trace, c06Ev{code: c06Hdr, arg: c06Enc(code)})
 	if !w.out {
 		w.send(code)
 	}
@@ -350,7 +369,7 @@ func c06Strict(c *c06Case) bool {
 func (w *c06Writer) implicit() {
 	if !w.out {
 		w.send(200)
-		*w.trace = append(*w.trace, c06Ev{c06Impl, 0})
+		*w.trace = append(*w.trace, c06Ev{code: c06Impl})
 	}
 }
 func (w *c06Writer) Write(b []byte) (int, error) {
@@ -360,7 +379,7 @@ func (w *c06Writer) Write(b []byte) (int, error) {
 		acc = w.cap - w.body
 	}
 	w.body += acc
-	*w.trace = append(*w.trace, c06Ev{c06Body, acc})
+	*w.trace = append(*w.trace, c06Ev{code: c06Body, arg: acc})
 	if acc < len(b) {
 		return acc, errC06Short
 	}
@@ -369,7 +388,7 @@ func (w *c06Writer) Write(b []byte) (int, error) {
 func (w *c06Writer) flush() {
 	w.implicit()
 	w.flushes++
-	*w.trace = append(*w.trace, c06Ev{c06RFlush, 0})
+	*w.trace = append(*w.trace, c06Ev{code: c06RFlush})
 }
 
 // ---- recording logger ----
@@ -377,16 +396,20 @@ type c06Logger struct {
 	echo.Logger
 	trace *[]c06Ev
 	n     int
+	layer int         // tower index of the Echo this logger belongs to
+	root  *c06Logger // the loggers of a tower count and record into the outermost one
 }
 
-func (l *c06Logger) Warn(i ...interface{}) {
-	l.n++
-	*l.trace = append(*l.trace, c06Ev{c06Warn, 0})
+func (l *c06Logger) warn() {
+	t := l
+	if l.root != nil {
+		t = l.root
+	}
+	t.n++
+	*t.trace = append(*t.trace, c06Ev{c06Warn, 0, l.layer})
 }
-func (l *c06Logger) Warnf(format string, args ...interface{}) {
-	l.n++
-	*l.trace = append(*l.trace, c06Ev{c06Warn, 0})
-}
+func (l *c06Logger) Warn(i ...interface{})                    { l.warn() }
+func (l *c06Logger) Warnf(format string, args ...interface{}) { l.warn() }
 
 type c06Reader struct {
 	chunks []int
@@ -676,7 +699,7 @@ var errC06Panic = errors.New("the operation panicked")
 
 // c06Exec performs one operation of a handler program on the real echo.Context; a panic is
 // recovered per step (like the Recover middleware would for the whole handler) and handed back
-func c06Exec(env *c06Env, ctx echo.Context, o c06Op, onBefore, onAfter func(h int), onReg func(code, h int)) (retN int, err error, panicked any) {
+func c06Exec(env *c06Env, ctx echo.Context, given http.ResponseWriter, o c06Op, onBefore, onAfter func(h int), onReg func(code, h int)) (retN int, err error, panicked any) {
 	defer func() {
 		if p := recover(); p != nil {
 			panicked, err = p, errC06Panic
@@ -764,7 +787,8 @@ func c06Exec(env *c06Env, ctx echo.Context, o c06Op, onBefore, onAfter func(h in
 			r.Flush()
 		}
 	case "unwrap":
-		if r.Unwrap() != r.Writer {
+		// (given == nil: the caller does not know the writer; then at least Unwrap() == Writer)
+		if r.Unwrap() != r.Writer || (given != nil && r.Unwrap() != given) {
 			err = errC06Unwrap
 		}
 	case "wstr":
@@ -865,9 +889,7 @@ func c06RoundTrip(c *c06Case) string {
 			return ""
 		}
 	}
-	env := c06NewEnv()
-	e := env.e
-	e.Logger.SetOutput(io.Discard)
+	nest := c06NestOf(c)
 	var committed bool
 	var status int
 	var size int64
@@ -877,10 +899,16 @@ func c06RoundTrip(c *c06Case) string {
 	// io.ReaderFrom, which is where a copy fast path would bypass Response.Write)
 	afterReg, afterRuns := false, 0
 	var sizeAtReg, sizeAtLastRun int64
-	e.GET("/", func(ctx echo.Context) error {
-		r := ctx.Response()
-		for _, o := range c.Ops {
-			c06Exec(env, ctx, o, func(int) {},
+	// with Nest > 0 the program runs in an Echo mounted inside nest others; what the client gets
+	// is compared with the OUTERMOST Response (the one around net/http's writer)
+	pos := 0
+	tw := c06NewTower(nest, c.Same && nest > 0, c06Target(c), func(tw *c06TowerT, level int) {
+		r := tw.ctxs[0].Response()
+		for c06RunsHere(c.Ops, pos, level, nest) {
+			o := c.Ops[pos]
+			pos++
+			ot := c06TowerIndex(o, nest)
+			c06Exec(tw.envs[ot], tw.ctxs[ot], nil, o, func(int) {},
 				func(int) { afterRuns++; sizeAtLastRun = r.Size },
 				func(code, _ int) {
 					if code == c06RegA && !afterReg {
@@ -888,11 +916,15 @@ func c06RoundTrip(c *c06Case) string {
 					}
 				})
 		}
-		committed, status, size = r.Committed, r.Status, r.Size
-		close(done)
-		return nil
+		if level == nest {
+			committed, status, size = r.Committed, r.Status, r.Size
+			close(done)
+		}
 	})
-	srv := httptest.NewUnstartedServer(e)
+	for _, env := range tw.envs {
+		env.e.Logger.SetOutput(io.Discard)
+	}
+	srv := httptest.NewUnstartedServer(tw.envs[0].e)
 	srv.Config.ErrorLog = log.New(io.Discard, "", 0)
 	srv.Start()
 	defer srv.Close()
@@ -921,7 +953,7 @@ func c06RoundTrip(c *c06Case) string {
 	if int64(len(body)) != size {
 		return fmt.Sprintf("real server: client received %d body bytes, Response.Size=%d (status %d)", len(body), size, resp.StatusCode)
 	}
-	if afterReg && size > sizeAtReg && (afterRuns == 0 || sizeAtLastRun != size) {
+	if nest == 0 && afterReg && size > sizeAtReg && (afterRuns == 0 || sizeAtLastRun != size) {
 		return fmt.Sprintf("real server: %d body bytes were written after an after-hook was registered (at Size=%d) but the last of %d after-hook runs saw Size=%d", size-sizeAtReg, sizeAtReg, afterRuns, sizeAtLastRun)
 	}
 	return ""
@@ -933,20 +965,124 @@ type c06Req struct {
 	trace   []c06Ev
 	snaps   []c06Snap
 	hookMsg string // what a hook saw at the moment it ran, if that was wrong
+	minT    int    // smallest tower index a status / body operation of the request was addressed to
+	// while the request runs: the Responses mounted so far (index = tower index), the next operation,
+	// per Response the status preset by an uncommitted JSON / JSONPretty (0 = none: 200 goes out), the
+	// Content-Disposition put into the header map by Attachment / Inline
+	resp        []*echo.Response
+	pos         int
+	pend        []int
+	pendingDisp int
 }
 
 func c06Programs(c *c06Case) [][]c06Op {
 	return append(append([][]c06Op(nil), c.Prev...), c.Ops)
 }
 
+// the events of the tower a Response at tower index t can be held responsible for: its own hook
+// and warn events, and everything the recording writer saw
+func c06LayerTrace(tr []c06Ev, t int) []c06Ev {
+	var out []c06Ev
+	for _, e := range tr {
+		switch e.code {
+		case c06RegB, c06RegA, c06RunB, c06RunA:
+			if e.l != t {
+				continue
+			}
+		case c06Warn:
+			// (l == -1: the levels share one logger.  A warning of ANOTHER judged Response fits in
+			// anyway: whoever warns is committed, so everything below is, and no Response warns
+			// between a body write and its after-hooks)
+			if e.l != t && e.l != -1 {
+				continue
+			}
+		}
+		out = append(out, e)
+	}
+	return out
+}
+
+func c06NestOf(c *c06Case) int {
+	if c.Nest < 0 {
+		return 0
+	}
+	if c.Nest > 3 {
+		return 3
+	}
+	return c.Nest
+}
+
+// tower index (0 = the Response around the recording writer, nest = the handler's own) of the
+// Response an operation addresses
+func c06TowerIndex(o c06Op, nest int) int {
+	l := o.L
+	if l < 0 {
+		l = 0
+	}
+	if l > nest {
+		l = nest
+	}
+	return nest - l
+}
+
+func c06IsHookOp(o c06Op) bool { return o.K == "bf" || o.K == "af" }
+
+// c06Tower: nest+1 Echo instances, instance t+1 mounted in the route "/" of instance t — through
+// echo.WrapHandler (even t) or a direct ServeHTTP(c.Response(), c.Request()) (odd t) — so that
+// the Response of instance t is the http.ResponseWriter of instance t+1.  The handler of
+// instance t first calls body(tw, t) — the part of the program the application at that level
+// runs BEFORE it hands the request on (a middleware that writes, then calls next) — and then
+// mounts instance t+1; the innermost one runs the rest.  Contexts: index = tower index.
+type c06TowerT struct {
+	envs []*c06Env
+	ctxs []echo.Context
+}
+
+func c06NewTower(nest int, same bool, target string, body func(tw *c06TowerT, level int)) *c06TowerT {
+	tw := &c06TowerT{envs: make([]*c06Env, nest+1), ctxs: make([]echo.Context, nest+1)}
+	for t := range tw.envs {
+		if same && t > 0 {
+			tw.envs[t] = tw.envs[0]
+		} else {
+			tw.envs[t] = c06NewEnv()
+		}
+	}
+	for t := range tw.envs {
+		t := t
+		path := "/"
+		if same && t > 0 {
+			path = fmt.Sprintf("/l%d", t)
+		}
+		tw.envs[t].e.GET(path, func(ctx echo.Context) error {
+			tw.ctxs[t] = ctx
+			body(tw, t)
+			switch {
+			case t == nest:
+			case same:
+				next := httptest.NewRequest(http.MethodGet, fmt.Sprintf("/l%d", t+1)+strings.TrimPrefix(target, "/"), nil)
+				tw.envs[0].e.ServeHTTP(ctx.Response(), next)
+			case t%2 == 0:
+				return echo.WrapHandler(tw.envs[t+1].e)(ctx)
+			default:
+				tw.envs[t+1].e.ServeHTTP(ctx.Response(), ctx.Request())
+			}
+			return nil
+		})
+	}
+	return tw
+}
+
+// the operations the application at tower level `level` performs before it hands the request on:
+// those from position pos on that are addressed to its own Response or one further out; the
+// innermost application performs all that is left
+func c06RunsHere(ops []c06Op, pos, level, nest int) bool {
+	return pos < len(ops) && (level == nest || c06TowerIndex(ops[pos], nest) <= level)
+}
+
 func c06Run(ci any) (res Result) {
 	c := ci.(*c06Case)
 	progs := c06Programs(c)
-	env := c06NewEnv()
-	e := env.e
-	lg := &c06Logger{Logger: e.Logger}
-	e.Logger = lg
-
+	nest := c06NestOf(c)
 	reqs := make([]*c06Req, len(progs))
 	strict := c06Strict(c)
 	cur := 0
@@ -954,8 +1090,10 @@ func c06Run(ci any) (res Result) {
 	tags := map[string]bool{}
 	opsAfterCommit := 0
 	carried := false // an earlier request left something behind that the reset has to clear
+	var lg *c06Logger
+	given := make([]http.ResponseWriter, nest+1) // the writer each Response of the tower was handed
 
-	handler := func(ctx echo.Context) error {
+	body := func(tw *c06TowerT, level int) {
 		ri := cur
 		rq, w, ops := reqs[ri], reqs[ri].w, progs[ri]
 		fail := func(i int, msg string) {
@@ -967,53 +1105,75 @@ func c06Run(ci any) (res Result) {
 				}
 			}
 		}
-		r := ctx.Response()
-		// what THIS request's program has asked for so far, read off the program text alone
-		pendingStatus := 0 // status preset by an uncommitted JSON / JSONPretty (0 = none: 200 goes out)
-		pendingDisp := 0   // Content-Disposition put into the header map by Attachment / Inline
-		if ri > 0 && (r.Committed || r.Size != 0) {
-			if oracle == "" {
-				oracle = fmt.Sprintf("request %d of %d starts with Committed=%v Size=%d on the recycled context", ri+1, len(progs), r.Committed, r.Size)
-			}
+		// the Response of this level has just been (re)set on top of the one further out
+		rq.resp = append(rq.resp[:level], tw.ctxs[level].Response())
+		if level > 0 {
+			given[level] = rq.resp[level-1]
 		}
-		for i, o := range ops {
-			prevCommitted, prevStatus, prevSize := r.Committed, r.Status, r.Size
+		if r := rq.resp[level]; ri > 0 && (r.Committed || r.Size != 0) && oracle == "" {
+			oracle = fmt.Sprintf("request %d of %d starts with Committed=%v Size=%d on the recycled context%s", ri+1, len(progs), r.Committed, r.Size, c06LayerName(level, nest))
+		}
+		resp := rq.resp // the Responses mounted so far
+		// rq.pend / rq.pendingDisp: what THIS request's program has asked for so far, read off the program text alone
+		// rq.minT: a Response is judged in full as long as no status / body operation went to a Response
+		// further out (which it cannot know about); the outermost one always is
+		pend := rq.pend
+		type prevT struct {
+			committed    bool
+			status, size int
+		}
+		for c06RunsHere(ops, rq.pos, level, nest) {
+			i, o := rq.pos, ops[rq.pos]
+			rq.pos++
+			ot := c06TowerIndex(o, nest)
+			if !c06IsHookOp(o) && ot < rq.minT {
+				rq.minT = ot
+			}
+			minT := rq.minT
+			prev := make([]prevT, len(resp))
+			for t, r := range resp {
+				prev[t] = prevT{r.Committed, r.Status, int(r.Size)}
+			}
 			prevOut, prevSent, prevCalls, prevBody, prevWarns := w.out, w.sent, len(w.calls), w.body, lg.n
 			prevFlushes, prevHijacks := w.flushes, w.hijacks
 			if !prevOut {
 				switch o.K {
 				case "attach":
-					pendingDisp = 1
+					rq.pendingDisp = 1
 				case "inline":
-					pendingDisp = 2
+					rq.pendingDisp = 2
 				}
 			}
-			retN, err, panicked := c06Exec(env, ctx, o,
+			pendingDisp := rq.pendingDisp
+			rl := resp[ot]
+			retN, err, panicked := c06Exec(tw.envs[ot], tw.ctxs[ot], given[ot], o,
 				// a hook records itself in the request DURING WHICH it runs (a hook that survived a
 				// reset shows up in the later request's recording, where nothing registered it)
 				func(h int) {
 					cq := reqs[cur]
-					cq.trace = append(cq.trace, c06Ev{c06RunB, h})
-					if (r.Committed || cq.w.out) && cq.hookMsg == "" {
-						cq.hookMsg = fmt.Sprintf("before-hook %d ran with Committed=%v, headers out=%v", h, r.Committed, cq.w.out)
+					cq.trace = append(cq.trace, c06Ev{c06RunB, h, ot})
+					// (a Response that an operation went around cannot know that the headers are out)
+					if (rl.Committed || (cq.w.out && ot <= cq.minT)) && cq.hookMsg == "" {
+						cq.hookMsg = fmt.Sprintf("before-hook %d%s ran with Committed=%v, headers out=%v", h, c06LayerName(ot, nest), rl.Committed, cq.w.out)
 					}
 				},
 				func(h int) {
 					cq := reqs[cur]
-					cq.trace = append(cq.trace, c06Ev{c06RunA, h})
-					if (!r.Committed || !cq.w.out) && cq.hookMsg == "" {
-						cq.hookMsg = fmt.Sprintf("after-hook %d ran with Committed=%v, headers out=%v", h, r.Committed, cq.w.out)
+					cq.trace = append(cq.trace, c06Ev{c06RunA, h, ot})
+					if (!rl.Committed || !cq.w.out) && cq.hookMsg == "" {
+						cq.hookMsg = fmt.Sprintf("after-hook %d%s ran with Committed=%v, headers out=%v", h, c06LayerName(ot, nest), rl.Committed, cq.w.out)
 					}
 				},
-				func(code, h int) { rq.trace = append(rq.trace, c06Ev{code, h}) })
+				func(code, h int) { rq.trace = append(rq.trace, c06Ev{code, h, ot}) })
 			retErr := err != nil
-			rq.snaps = append(rq.snaps, c06Snap{r.Committed, r.Status, int(r.Size), len(w.calls), w.sent, w.body, w.flushes, lg.n, retN, retErr})
+			rq.snaps = append(rq.snaps, c06Snap{rl.Committed, rl.Status, int(rl.Size), len(w.calls), w.sent, w.body, w.flushes, lg.n, retN, retErr})
 
 			// ---------- model-free oracle: the property's clauses on what was recorded ----------
 			// a commit the writer must refuse: this step's first status (from the program text) is
 			// outside 100..999, nothing is out yet, the writer is a refusing one
 			refused, mustRefuse, refusedCode := false, false, 0
-			if want, may := c06ExpectedFirstStatus(o, pendingStatus); strict && !prevOut && may && c06Invalid(want) {
+			want, may := c06ExpectedFirstStatus(o, pend[ot])
+			if strict && !prevOut && may && c06Invalid(want) {
 				mustRefuse, refusedCode = true, want
 				if s, ok := panicked.(string); ok && strings.HasPrefix(s, "invalid WriteHeader code") {
 					refused = true
@@ -1050,31 +1210,12 @@ func c06Run(ci any) (res Result) {
 			if len(w.calls) > 1 {
 				fail(i, fmt.Sprintf("the underlying writer received WriteHeader %d times: %v", len(w.calls), w.calls))
 			}
-			if r.Committed != w.out {
-				fail(i, fmt.Sprintf("Committed=%v but headers out=%v (sent status %d)", r.Committed, w.out, w.sent))
-			}
-			if w.out {
-				if r.Status != w.sent {
-					fail(i, fmt.Sprintf("Response.Status=%d but status %d was sent", r.Status, w.sent))
-				}
-				if int(r.Size) != w.body {
-					fail(i, fmt.Sprintf("Response.Size=%d but %d body bytes were written", r.Size, w.body))
-				}
-				if len(w.calls) != 1 || w.calls[0] != w.sent {
-					fail(i, fmt.Sprintf("headers out with status %d but WriteHeader calls received: %v", w.sent, w.calls))
-				}
-			} else if r.Size != 0 || w.body != 0 {
-				fail(i, "body bytes counted/written although the headers are not out")
-			}
 			if prevOut {
 				opsAfterCommit++
 				if w.sent != prevSent || len(w.calls) != prevCalls {
 					fail(i, fmt.Sprintf("a status write after the headers went out reached the underlying writer (calls %v)", w.calls))
 				}
-				if prevCommitted && r.Status != prevStatus {
-					fail(i, fmt.Sprintf("Response.Status changed %d -> %d after commit", prevStatus, r.Status))
-				}
-				if c06CarriesStatus(o) {
+				if c06CarriesStatus(o) && prev[ot].committed {
 					tags["status-write-after-commit:"+o.K] = true
 					if lg.n <= prevWarns {
 						fail(i, "ignored status write was not logged")
@@ -1082,7 +1223,6 @@ func c06Run(ci any) (res Result) {
 				}
 			} else if w.out {
 				// the headers went out in this step: first status wins
-				want, may := c06ExpectedFirstStatus(o, pendingStatus)
 				if !may {
 					fail(i, fmt.Sprintf("headers went out (status %d) on an operation that writes nothing", w.sent))
 				} else if w.sent != want {
@@ -1092,25 +1232,67 @@ func c06Run(ci any) (res Result) {
 					fail(i, fmt.Sprintf("Content-Disposition kind %d was in the header map when the headers went out, the program asked for kind %d (0 none, 1 attachment, 2 inline)", w.sentDisp, pendingDisp))
 				}
 				tags["commit-by:"+o.K] = true
-			} else if o.K == "json" || o.K == "jsonpretty" {
-				pendingStatus = o.C // preset; goes out with the next implicit commit
 			} else if refused {
-				pendingStatus = refusedCode // the refused status write stays pending
+				// the refused status write stays pending in the Response it was addressed to and in
+				// every Response it travelled through on its way to the writer
+				for t := 0; t <= ot; t++ {
+					pend[t] = refusedCode
+				}
+			} else if o.K == "json" || o.K == "jsonpretty" {
+				pend[ot] = o.C // preset; goes out with the next implicit commit through this Response
 			}
-			if int(r.Size)-int(prevSize) != w.body-prevBody {
-				fail(i, fmt.Sprintf("Size grew by %d but %d bytes were written", int(r.Size)-int(prevSize), w.body-prevBody))
+			// the bookkeeping clauses, per Response of the tower
+			for t, r := range resp {
+				on := c06LayerName(t, nest)
+				if t > minT {
+					// an operation has gone to a Response further out, behind this one's back: it
+					// still must not claim more than what happened
+					if r.Committed && !w.out {
+						fail(i, fmt.Sprintf("Committed=true%s but no headers are out", on))
+					}
+					if int(r.Size) > w.body {
+						fail(i, fmt.Sprintf("Response.Size=%d%s but only %d body bytes were written", r.Size, on, w.body))
+					}
+					continue
+				}
+				if r.Committed != w.out {
+					fail(i, fmt.Sprintf("Committed=%v%s but headers out=%v (sent status %d)", r.Committed, on, w.out, w.sent))
+				}
+				if w.out {
+					if r.Status != w.sent {
+						fail(i, fmt.Sprintf("Response.Status=%d%s but status %d was sent", r.Status, on, w.sent))
+					}
+					if int(r.Size) != w.body {
+						fail(i, fmt.Sprintf("Response.Size=%d%s but %d body bytes were written", r.Size, on, w.body))
+					}
+					if len(w.calls) != 1 || w.calls[0] != w.sent {
+						fail(i, fmt.Sprintf("headers out with status %d but WriteHeader calls received: %v", w.sent, w.calls))
+					}
+				} else if r.Size != 0 || w.body != 0 {
+					fail(i, "body bytes counted/written although the headers are not out"+on)
+				}
+				if prevOut && prev[t].committed && r.Status != prev[t].status {
+					fail(i, fmt.Sprintf("Response.Status changed %d -> %d after commit%s", prev[t].status, r.Status, on))
+				}
+				if int(r.Size)-prev[t].size != w.body-prevBody {
+					fail(i, fmt.Sprintf("Size grew by %d%s but %d bytes were written", int(r.Size)-prev[t].size, on, w.body-prevBody))
+				}
 			}
 			if o.K == "unwrap" && err != nil {
-				fail(i, "Response.Unwrap() does not return the wrapped writer")
+				fail(i, "Response.Unwrap() does not return the writer the Response was given")
 			}
 			if (o.K == "rcfl" || o.K == "fefl") && err != nil && !c06NoFlush(c) && !refused {
 				fail(i, fmt.Sprintf("flushing through the optional interfaces failed although the underlying writer can flush: %v", err))
 			}
 			if o.K == "hijack" {
 				tags["hijack"] = true
-				if r.Committed != prevCommitted || r.Status != prevStatus || r.Size != prevSize ||
-					w.sent != prevSent || len(w.calls) != prevCalls || w.body != prevBody || w.flushes != prevFlushes {
-					fail(i, "Hijack changed the response bookkeeping or wrote to the underlying writer")
+				for t, r := range resp {
+					if r.Committed != prev[t].committed || r.Status != prev[t].status || int(r.Size) != prev[t].size {
+						fail(i, "Hijack changed the response bookkeeping"+c06LayerName(t, nest))
+					}
+				}
+				if w.sent != prevSent || len(w.calls) != prevCalls || w.body != prevBody || w.flushes != prevFlushes {
+					fail(i, "Hijack wrote to the underlying writer")
 				}
 				if c.HJ {
 					if w.hijacks != prevHijacks+1 || !errors.Is(err, errC06Hijack) {
@@ -1129,14 +1311,16 @@ func c06Run(ci any) (res Result) {
 				tags["short-write"] = true
 			}
 		}
-		if ri+1 < len(progs) {
-			if !r.Committed && r.Status != 200 && r.Status != 0 {
-				tags["earlier-request-left-preset-status"] = true
-				carried = true
-			}
-			if r.Committed && (r.Status != 200 || r.Size > 0) {
-				tags["earlier-request-committed"] = true
-				carried = true
+		if level == nest && ri+1 < len(progs) {
+			for _, r := range resp {
+				if !r.Committed && r.Status != 200 && r.Status != 0 {
+					tags["earlier-request-left-preset-status"] = true
+					carried = true
+				}
+				if r.Committed && (r.Status != 200 || r.Size > 0) {
+					tags["earlier-request-committed"] = true
+					carried = true
+				}
 			}
 			for _, o := range ops {
 				if o.K == "bf" || o.K == "af" {
@@ -1145,7 +1329,6 @@ func c06Run(ci any) (res Result) {
 				}
 			}
 		}
-		return nil
 	}
 
 	defer func() {
@@ -1153,42 +1336,60 @@ func c06Run(ci any) (res Result) {
 			res = Result{Ops: c06Ops(c), Obs: "panic", Oracle: fmt.Sprintf("panic: %v", p), Tags: []string{"panic"}}
 		}
 	}()
+	same := c.Same && nest > 0
+	tw := c06NewTower(nest, same, c06Target(c), body)
+	lg = &c06Logger{Logger: tw.envs[0].e.Logger}
+	tw.envs[0].e.Logger = lg
+	if same {
+		lg.layer = -1 // one logger for all levels: which Response warned is not known
+	}
+	for t := 1; t <= nest && !same; t++ {
+		tw.envs[t].e.Logger = &c06Logger{Logger: tw.envs[t].e.Logger, layer: t, root: lg}
+	}
 	begin := func(i int) http.ResponseWriter {
 		cur = i
-		rq := &c06Req{}
+		rq := &c06Req{minT: nest, pend: make([]int, nest+1)}
 		rq.w = &c06Writer{h: http.Header{}, cap: c.Cap, trace: &rq.trace, strict: strict}
 		if c.Cap < 0 {
 			rq.w.cap = -1
 		}
 		reqs[i] = rq
 		lg.trace, lg.n = &rq.trace, 0
-		return c06Under(rq.w, !c.NF, c.RF, c.HJ, c.X)
+		given[0] = c06Under(rq.w, !c.NF, c.RF, c.HJ, c.X)
+		return given[0]
 	}
 	if c.Fresh {
 		tags["fresh-context"] = true
-		var ctx echo.Context
 		for i := range progs {
 			under := begin(i)
 			req := httptest.NewRequest(http.MethodGet, c06Target(c), nil)
-			if i == 0 {
-				ctx = e.NewContext(req, under)
-			} else {
-				ctx.Reset(req, under)
+			for t := 0; t <= nest; t++ {
+				var wr http.ResponseWriter = under
+				if t > 0 {
+					wr = tw.ctxs[t-1].Response()
+				}
+				if i == 0 {
+					tw.ctxs[t] = tw.envs[t].e.NewContext(req, wr)
+				} else {
+					tw.ctxs[t].Reset(req, wr)
+				}
+				body(tw, t)
 			}
-			handler(ctx)
 		}
 	} else {
-		e.GET("/", handler)
 		for i := range progs {
 			under := begin(i)
-			e.ServeHTTP(under, httptest.NewRequest(http.MethodGet, c06Target(c), nil))
+			tw.envs[0].e.ServeHTTP(under, httptest.NewRequest(http.MethodGet, c06Target(c), nil))
 		}
 	}
 	for i, rq := range reqs {
-		if msg := c06ScanTrace(rq.trace); msg != "" && oracle == "" {
-			oracle = "hooks/order: " + msg
-			if len(progs) > 1 {
-				oracle = fmt.Sprintf("request %d of %d: %s", i+1, len(progs), oracle)
+		// the hook / ordering clauses for every Response nothing went around
+		for t := 0; t <= rq.minT && t <= nest; t++ {
+			if msg := c06ScanTrace(c06LayerTrace(rq.trace, t)); msg != "" && oracle == "" {
+				oracle = "hooks/order" + c06LayerName(t, nest) + ": " + msg
+				if len(progs) > 1 {
+					oracle = fmt.Sprintf("request %d of %d: %s", i+1, len(progs), oracle)
+				}
 			}
 		}
 	}
@@ -1276,6 +1477,22 @@ func c06Run(ci any) (res Result) {
 	if !last.w.out {
 		tags["never-committed"] = true
 	}
+	if same {
+		tags["tower-levels-are-routes-of-one-Echo"] = true
+	}
+	if nest > 0 {
+		tags[fmt.Sprintf("response-on-top-of-%d-other-responses", nest)] = true
+		if last.minT < nest {
+			tags["operations-on-an-outer-response"] = true
+		}
+		for _, ops := range progs {
+			for _, o := range ops {
+				if c06IsHookOp(o) && c06TowerIndex(o, nest) < nest {
+					tags["hooks-on-an-outer-response"] = true
+				}
+			}
+		}
+	}
 	var tl []string
 	for t := range tags {
 		tl = append(tl, t)
@@ -1283,6 +1500,26 @@ func c06Run(ci any) (res Result) {
 	nontrivial := opsAfterCommit > 0 && (nb+na > 0 || c06IsFlush(firstTouch) || tags["short-write"] || len(tl) >= 4)
 	if carried && last.w.out {
 		nontrivial = true
+	}
+	if nest > 0 {
+		// a tower of Responses: the model of lean/EchoModel/C06Nest.lean (or no model comparison at
+		// all when the case uses what that model does not have)
+		line := c06NestLine(c)
+		nobs := ""
+		if line != "" {
+			tl = append(tl, "compared-with-the-tower-model")
+			var p []string
+			for t := 0; t <= nest; t++ {
+				r := tw.ctxs[t].Response()
+				p = append(p, wBool(r.Committed), wCode(r.Status), wInt(int(r.Size)))
+			}
+			p = append(p, wInt(len(last.w.calls)), wInt(last.w.body), wInt(last.w.flushes), wInt(len(last.trace)))
+			for _, ev := range last.trace {
+				p = append(p, wInt(ev.code), wInt(ev.l), wInt(ev.arg))
+			}
+			nobs = strings.Join(p, " ")
+		}
+		return Result{Ops: line, Obs: nobs, Oracle: oracle, Tags: tl, Nontrivial: last.w.out}
 	}
 	if c06HasSubHooks(c) {
 		// hooks that register hooks: the small model of lean/EchoModel/C06Hooks.lean (or no model
@@ -1307,6 +1544,63 @@ func c06Run(ci any) (res Result) {
 		return Result{Ops: line, Obs: hobs, Oracle: oracle, Tags: tl, Nontrivial: true}
 	}
 	return Result{Ops: c06Ops(c), Obs: strings.Join(obs, " "), Oracle: oracle, Tags: tl, Nontrivial: nontrivial}
+}
+
+// " on the Response k levels out of the handler's" for messages about a tower
+func c06LayerName(t, nest int) string {
+	if nest == 0 {
+		return ""
+	}
+	switch {
+	case t == 0 && nest == 1:
+		return " (OUTER Response, the one around the underlying writer)"
+	case t == 0:
+		return fmt.Sprintf(" (OUTERMOST Response of %d, the one around the underlying writer)", nest+1)
+	case t == nest:
+		return " (the handler's own, innermost Response)"
+	}
+	return fmt.Sprintf(" (Response %d levels above the underlying writer)", t)
+}
+
+// model line for the tower model ("N nlayers status0* nops (kind layer args)*"), or "" when the case
+// is outside it (earlier requests, capacity, non-flusher, refusing writer, hooks registering hooks,
+// helpers the tower model does not have)
+func c06NestLine(c *c06Case) string {
+	nest := c06NestOf(c)
+	if len(c.Prev) > 0 || c.Cap >= 0 || c06NoFlush(c) || c06Strict(c) || c06HasSubHooks(c) || c.Same {
+		return ""
+	}
+	p := 200
+	if c.Fresh {
+		p = 0
+	}
+	parts := []string{"N", wInt(nest + 1)}
+	for t := 0; t <= nest; t++ {
+		parts = append(parts, wInt(p))
+	}
+	parts = append(parts, wInt(len(c.Ops)))
+	for _, o := range c.Ops {
+		t := wInt(c06TowerIndex(o, nest))
+		switch o.K {
+		case "wh", "nc":
+			parts = append(parts, wJoin("1", t, wCode(o.C)))
+		case "w", "wstr":
+			parts = append(parts, wJoin("2", t, wInt(o.N)))
+		case "fl", "rcfl", "fefl":
+			parts = append(parts, wJoin("3", t))
+		case "bf":
+			parts = append(parts, wJoin("4", t, wInt(o.H)))
+		case "af":
+			parts = append(parts, wJoin("5", t, wInt(o.H)))
+		case "json", "jsonpretty":
+			parts = append(parts, wJoin("6", t, wCode(o.C), wInt(o.N), wBool(!o.Bad)))
+		case "blob":
+			parts = append(parts, wJoin("7", t, wCode(o.C), wInt(o.N)))
+		default:
+			return ""
+		}
+	}
+	return strings.Join(parts, " ")
 }
 
 func c06HasSubHooks(c *c06Case) bool {
